@@ -25,7 +25,8 @@ def handle (op real : String) : Verdict := Id.run do
   let age : Int := parseInt (get "A:")
   let chain := ((get "L:").splitOn ";").filterMap parseCert
   let o := if target == "meta" then connectMeta bundle chain age else connectNode bundle (if target == "hostid" then 11 else 10) chain age
-  let sniName := if target == "meta" then "host" else if target == "hostid" then "hostid" else "cp"
+  -- an IP literal is never sent as SNI (RFC 6066; crypto/tls omits it): the metadata service of such a bundle sees none
+  let sniName := if target == "meta" then (if toks.contains "H:ip" then "-" else "host") else if target == "hostid" then "hostid" else "cp"
   let model := s!"connected={if o.connected then 1 else 0} bytes={if o.connected then 1 else 0} sni={sniName} clientcert={if o.presents.isSome then "bundle" else "none"}"
   let sig := s!"{target}-{if o.connected then "accept" else "reject"}-len{chain.length}"
   if real.startsWith "env-error" || real.startsWith "panic" || real.startsWith "bad-op" || real.startsWith "bundle-error" then
